@@ -42,8 +42,19 @@ def run(case):
     if op == 'periods':
         s = BASE + dt.timedelta(seconds=case['s'])
         e = BASE + dt.timedelta(seconds=case['e'])
-        r = dth.get_periods(s, e, case['unit'], case['delta'])
+        delta = case['delta'] + 0.5 if case.get('fdelta') else case['delta']
+        r = dth.get_periods(s, e, case['unit'], delta)
         return [_secs(x) for x in r]
+    if op == 'pipe':
+        s = BASE + dt.timedelta(seconds=case['s'])
+        e = BASE + dt.timedelta(seconds=case['e'])
+        ps = dth.get_periods(s, e, case['unit'], case['delta'])
+        pbd = dth.generate_period_offset_map(ps)
+        ts = np.array([float(t) for t in case['ts']], dtype=np.float64)
+        flt = None if case['flt'] is None else np.array(case['flt'], dtype=bool)
+        days, inr = dth.get_days(ts, flt, np.float64(case['s']), np.float64(case['e2']))
+        r = dth.get_period_offsets(pbd, days, inr)
+        return [int(x) for x in r]
     if op == 'days':
         tps = case['tps']
         ts = np.array([t / tps for t in case['ts']], dtype=np.float64)
@@ -68,12 +79,22 @@ def run(case):
     raise ValueError(op)
 
 
+def _unit(u):
+    """ticks of one period unit; 0 = rejected by the argument validation"""
+    if u in ('day', 'days'):
+        return DAY
+    if u in ('week', 'weeks'):
+        return 7 * DAY
+    return 0
+
+
 def to_val(case):
     op = case['op']
     opt = lambda x: [] if x is None else [x]
     if op == 'periods':
-        unit = DAY * (7 if case['unit'].startswith('week') else 1)
-        return [1, case['s'], case['e'], unit, case['delta']]
+        return [1, case['s'], case['e'], 0 if case.get('fdelta') else _unit(case['unit']), case['delta']]
+    if op == 'pipe':
+        return [5, DAY, case['s'], case['e'], _unit(case['unit']), case['delta'], case['ts'], opt(case['flt']), case['e2']]
     if op == 'days':
         return [2, DAY * case['tps'], case['ts'], opt(case['flt']), opt(case['s']), opt(case['e'])]
     if op == 'pmap':
@@ -98,8 +119,17 @@ def features(case, model):
     if op == 'periods':
         if case['delta'] < 0: f.append('neg-delta')
         if not isinstance(model, str) and len(model) >= 3: f.append('periods>=3')
-        if (case['e'] - case['s']) % (DAY * (7 if case['unit'].startswith('week') else 1) * max(1, abs(case['delta']))) == 0:
+        if _unit(case['unit']) == 0 or case.get('fdelta'):
+            f.append('invalid-argument')
+        elif (case['e'] - case['s']) % (_unit(case['unit']) * max(1, abs(case['delta']))) == 0:
             f.append('end-on-boundary')
+    elif op == 'pipe':
+        f.append('pipeline')
+        if not isinstance(model, str):
+            if -1 in model: f.append('pipe-out-of-range')
+            if len(set(model) - {-1}) >= 2: f.append('pipe-several-periods')
+        if case['delta'] < 0: f.append('pipe-neg-delta')
+        if case['e2'] > case['e']: f.append('pipe-end-after-last-boundary')
     elif op == 'days':
         if case['flt'] is not None and 0 in case['flt']: f.append('filter-excludes')
         if case['flt'] is not None and case['fdt'] == 'int8': f.append('int8-filter')
@@ -149,6 +179,26 @@ def gen(tier, rng):
                 if unit.endswith('s') and delta not in (-2, 1):
                     continue
                 yield {'op': 'periods', 's': s * hd, 'e': e * hd, 'unit': unit, 'delta': delta}
+    for unit in ('month', 'Day', '', 5, None):
+        for delta in (0, 1, -1):
+            yield {'op': 'periods', 's': 0, 'e': 3 * hd, 'unit': unit, 'delta': delta}
+    for unit in ('day', 'week'):
+        for delta in (0, 1, -1):
+            yield {'op': 'periods', 's': 0, 'e': 3 * hd, 'unit': unit, 'delta': delta, 'fdelta': True}
+    # the whole pipeline: get_periods -> generate_period_offset_map, get_days -> get_period_offsets
+    pool = [-1, 0, 1, DAY - 1, DAY, 2 * DAY, 3 * DAY - 1, 3 * DAY, 7 * DAY - 1, 7 * DAY, 9 * DAY + 5, 14 * DAY]
+    for (unit, delta) in (('day', 1), ('day', 2), ('day', 3), ('week', 1), ('day', -2), ('week', -1)):
+        ends = [0, DAY, 3 * DAY, 6 * DAY + 5, 7 * DAY, 14 * DAY]
+        for e in ([x for x in ends] if delta > 0 else [-x for x in ends]):
+            for e2 in sorted({e, e - 1, 3 * DAY, 7 * DAY, 15 * DAY}):
+                for n in range(0, 3):
+                    tss = list(itertools.product(pool, repeat=n))
+                    if len(tss) > 40:
+                        tss = rng.sample(tss, 80 if big else 40)
+                    for ts in tss:
+                        for flt in [None] + [list(f) for f in itertools.product([0, 1], repeat=n)][:-1]:
+                            yield {'op': 'pipe', 's': 0, 'e': e, 'e2': e2, 'unit': unit, 'delta': delta,
+                                   'ts': list(ts), 'flt': flt}
     # get_days
     for tps in (1, 4):
         d = DAY * tps
